@@ -11,6 +11,7 @@ use ndarray::{Array1, Array2};
 
 use crate::linalg::affine::Polytope;
 use crate::linalg::polyhedron::PolytopeStatus;
+use crate::pwl::node::NodeState;
 
 /// Replacement behaviour of the LP backend for a single call.
 #[derive(Clone, Debug, PartialEq)]
@@ -44,6 +45,7 @@ struct HookState {
     calls: usize,
     log: Vec<LpRecord>,
     plan: HashMap<usize, LpFault>,
+    trace: Vec<(usize, NodeState)>,
 }
 
 thread_local! {
@@ -58,8 +60,24 @@ pub fn start(plan: HashMap<usize, LpFault>) {
         st.inside = false;
         st.calls = 0;
         st.log.clear();
+        st.trace.clear();
         st.plan = plan;
     });
+}
+
+/// Records the feasibility state that `infeasible_elimination` decided for a node.
+pub(crate) fn trace_state(node: usize, state: &NodeState) {
+    STATE.with(|st| {
+        let mut st = st.borrow_mut();
+        if st.active {
+            st.trace.push((node, state.clone()));
+        }
+    });
+}
+
+/// Returns the node states decided since [`start`] (in visiting order).
+pub fn take_trace() -> Vec<(usize, NodeState)> {
+    STATE.with(|st| std::mem::take(&mut st.borrow_mut().trace))
 }
 
 /// Stops logging and returns the calls seen since [`start`].
